@@ -314,3 +314,4 @@ Proof. exact reserve_and_clear_keeps_push_slot_ready. Qed.
 Print Assumptions c02_reserve_and_clear_keeps_protocol_state.
 Theorem c02_reserve_and_clear_same_capacity_is_clear : same_branch_is_clear = true.
 Proof. exact same_branch_is_clear_holds. Qed.
+Print Assumptions c02_reserve_and_clear_same_capacity_is_clear.
